@@ -28,6 +28,9 @@ pub mod state;
 pub mod tests;
 #[doc(hidden)]
 pub mod util;
+#[cfg(orca_so_whirlpools_verif)]
+#[doc(hidden)]
+pub mod verif_hooks;
 
 use crate::state::{
     ConfigFeatureFlag, LockType, OpenPositionBumps, OpenPositionWithMetadataBumps,
